@@ -26,6 +26,9 @@ func init() {
 					jobs = append(jobs, Job{Pkg: "proxy", Func: "verifC20Index", Args: []int64{int64(n), int64(a)}})
 				}
 			}
+			for n := 5; n <= 8; n++ {
+				jobs = append(jobs, Job{Pkg: "proxy", Func: "verifC20IndexAny", Args: []int64{int64(n)}})
+			}
 			maxF := 6
 			if tier == "thorough" {
 				maxF = 7
@@ -65,7 +68,7 @@ func init() {
 		ContractStubs: "filterHTML environment: identity decompression, Latin-1 coding per its definition, fixed tag",
 		MustReach: []string{"c20.found", "c20.none", "c20.window", "c20.injected", "c20.unchanged"},
 		Bounds: map[string]string{
-			"quick":    "findBodyInjectionIndex/isMatchFound on bodies of 0..9 symbolic bytes over three alphabets (the letters of each marker in both cases, '<', '/', a filler) and on bodies of 16384-k filler bytes followed by 9 symbolic bytes for k in {-1,0,1,3,6,8}; filterHTML (environment stubbed) on bodies of 0..6 symbolic bytes incl. two byte values >= 0x80 (Latin-1 coding modelled exactly: one or two UTF-8 bytes per byte): output, Content-Length, Content-Encoding",
+			"quick":    "findBodyInjectionIndex/isMatchFound on bodies of 0..9 symbolic bytes over three alphabets (the letters of each marker in both cases, '<', '/', a filler) and on bodies of 5..8 arbitrary 7-bit bytes (control characters included) and on bodies of 16384-k filler bytes followed by 9 symbolic bytes for k in {-1,0,1,3,6,8}; filterHTML (environment stubbed) on bodies of 0..6 symbolic bytes incl. two byte values >= 0x80 (Latin-1 coding modelled exactly: one or two UTF-8 bytes per byte): output, Content-Length, Content-Encoding",
 			"thorough": "bodies up to 13 symbolic bytes; every k in -2..9",
 		},
 		Outside:     []string{"gzip decompression, the x/text Latin-1 coding (bytes >= 0x80 become two bytes in the decoded string, so the window counts decoded bytes) and the content-script template: replaced by contracts: identity decompression, exact Latin-1 coding written in the harness, fixed tag", "bodies other than the two shapes"},
